@@ -136,7 +136,10 @@ JSON_KEYS = ['a', 'b', 'path', 'stats', 'revision', 'old', 'new', 'type',
 JSON_STRS = ['', 'v', 'value', 'café', '日本語', 'line\nbreak',
              'crlf\r\n', 'quote"q', 'back\\', '\x00\x01\x1f', ' ',
              '\U0001f600', '#..meta: length=1', ' lead', 'trail ', '﻿',
-             '퟿', '/', 'a' * 90]
+             '퟿', '/', 'a' * 90,
+             # what os.fsdecode() gives for undecodable file names, and other
+             # lone surrogates: legal JSON strings once escaped
+             'src/caf\udce9.txt', '\ud800', 'rev\udc00\ud800pair']
 
 
 def json_value(rng, depth=0):
